@@ -18,7 +18,7 @@
 #define INIT 0      // 0: symbolic initial schema, 1: fixed chain X1; D1:=X1; D2:=D1
 #endif
 #ifndef OPS
-#define OPS 9       // number of operation kinds in the menu (4 = core sub-menu)
+#define OPS 10      // number of operation kinds in the menu (4 = core sub-menu)
 #endif
 using namespace ccl;
 using namespace ccl::semantic;
@@ -123,7 +123,7 @@ static void applyOperation(RSForm& f) {
   const std::string before = api::RSFormJA::FromData(RSForm(f)).ToJSON();
   bool accepted = true; bool canRefuse = true;
   EntityUID target = 0;
-  if (op != 0 && op != 7 && op != 8) {
+  if (op != 0 && op != 7 && op != 8 && op != 9) {
     if (items.empty()) return;
     target = items[(size_t)pick((int)items.size(), "target")];
   }
@@ -159,7 +159,19 @@ static void applyOperation(RSForm& f) {
     canRefuse = false;
     break;
   }
-  default: f.ResetAliases(); canRefuse = false; break;
+  case 8: f.ResetAliases(); canRefuse = false; break;
+  default: {  // bulk InsertCopy of a symbolic selection taken from a COPY of this schema (every identifier collides with an existing one)
+    const RSForm source(f);
+    VectorOfEntities selection;
+    const unsigned mask = (unsigned)pick(1 << (items.size() < 3 ? (int)items.size() : 3), "copied-selection");
+    for (size_t i = 0; i < items.size() && i < 3; ++i) if (mask & (1u << i)) selection.push_back(items[i]);
+    const auto before_n = items.size();
+    const auto inserted = f.InsertCopy(selection, source.Core());
+    sym_assert(inserted.size() == selection.size() && listOf(f).size() == before_n + selection.size(), "bulk-copy-inserts-every-selected-constituent");
+    for (const auto u : inserted) sym_assert(f.Contains(u), "bulk-copy-returns-existing-constituents");
+    canRefuse = false;
+    break;
+  }
   }
   if (canRefuse && !accepted) {
     sym_assert(api::RSFormJA::FromData(RSForm(f)).ToJSON() == before, "refused-operation-changes-nothing");
